@@ -91,7 +91,7 @@ def build_dir(entries, chunk_size, density, with_index=True, max_per_chunk=None)
     return chunks, index_root, depth, 0, npmgl - 1
 
 def build(files0, files1=(), rng=None, version=3, chunk_size=4096, density=2, with_index=True, wbits=16, reset_frames=2,
-          rt_entry_size=8, with_rtable=True, with_spaninfo=True, control_version=2, lang=0x409, max_per_chunk=None, dirs=(), pad_to_reset=True, content_last=True, lzx_match_p=0.5, rt_slack=0, gaps=(0, 0, 0)):
+          rt_entry_size=8, with_rtable=True, with_spaninfo=True, control_version=2, lang=0x409, max_per_chunk=None, dirs=(), pad_to_reset=True, content_last=True, lzx_match_p=0.5, rt_slack=0, gaps=(0, 0, 0), rt_keep=None):
     """files0: [(name, data)] stored uncompressed; files1: [(name, length)] stored in the LZX section (content drawn by the generator).
     returns (chm bytes, expected {name: (section, offset, length, data)})"""
     sec0 = b""; entries = []; expect = {}
@@ -113,6 +113,7 @@ def build(files0, files1=(), rng=None, version=3, chunk_size=4096, density=2, wi
         nfr = (total_padded + 32767) // 32768
         frame_offs = [0] + cuts
         if len(frame_offs) != max(nfr, 1): raise ValueError("frame bookkeeping")
+        if rt_keep is not None: frame_offs = frame_offs[:max(rt_keep, 1)]      # a reset table that covers only the first frames (SpanInfo still gives the length)
         wsize = 1 << wbits
         if control_version == 2: control = struct.pack("<I4sIIIII", 6, b"LZXC", 2, reset_frames, wsize // 32768, 0, 0)
         else: control = struct.pack("<I4sIIIII", 6, b"LZXC", 1, reset_frames * 32768, wsize, 0, 0)
